@@ -58,6 +58,10 @@ P = {
   "Every world inside the bound (deviation-bounded generic worlds over all entry kinds, 20 import forms, special targets, attributes, redirects, local/remote, types header; plus the complete enumeration of core-alphabet worlds with <= 3 edges) is built under 3 graph kinds x 3 option sets and compared with (1) reference rules deriving each module's recorded dependencies from the renderer's record of what it wrote, (2) the least closure of the roots under the follow rules, computed over the reference dependencies, (3) the loader call log (single content load per specifier, redirects recorded), (4) entry kinds fixed by the world.",
   "The reference rules (about 25, each mirroring a sentence of the statement and anchored in graph.rs) are part of the trusted base; default resolution only (no custom resolver / npm resolver / jsr passthrough). Worlds outside the same-attribute proviso are not generated; redirect cycles are C14's.",
   "DESIGN.md §4 C01", TECH + "; deviation-bounded + complete core enumeration of module worlds against a reference model of declared dependencies and closure"),
+ "C08": (True,
+  "All programs of <= 2 (quick) / <= 3 (thorough) items over a 28-form dependency syntax alphabet x 6 media types are generated (form choice complete; spelling, quotes, trivia, CRLF, BOM, shebang deviation-bounded), analysed with the real analyser and built into a graph; reported (kind, unescaped specifier, attribute) multisets, byte-exact ranges (independent position mapper) and Dependency::includes over every text position are compared with the renderer's record. Every module source of the spec corpus is checked with the generic range oracle.",
+  "Trusted: the renderer's bookkeeping, the independent (line, scalar-value) -> byte mapper. Forms outside the alphabet are only covered through the corpus.",
+  "DESIGN.md §4 C08", TECH + "; complete enumeration of short programs over a syntax alphabet (deviation-bounded trivia/spelling) + full corpus"),
 }
 
 ALL = ["C%02d" % i for i in range(1, 21)]
